@@ -121,17 +121,43 @@ example : eval ((E.bin .mul (.num 1) (.num 2)).render ++ .num 3 :: [.eol]) = .er
 theorem lone_unary_rejected : eval [.tilde, .eol] = .err ∧ eval [.op .sub, .eol] = .err := by
   constructor <;> eval_model
 
-/-! ## 7. the 32-bit entry point truncates -/
+/-- eval_expression(AsmContext*, int*): the 32-bit result is the 64-bit value exactly —
+    read as a signed or as an unsigned number — or the expression is rejected; it is
+    never a silently truncated value (the "narrowing" half of property C06). -/
+theorem eval32_exact (ts : List Tok) (w : BitVec 32) (r : List Tok) (h : eval32 ts = .ok (w, r)) :
+    ∃ v : BitVec 64, eval ts = .ok (v, r) ∧ (v.toInt = w.toInt ∨ v.toInt = (w.toNat : Int)) := by
+  unfold eval32 at h
+  split at h
+  · rename_i v r' hv
+    split at h
+    · rename_i hf
+      simp only [Res.ok.injEq, Prod.mk.injEq] at h
+      obtain ⟨hw, hr⟩ := h
+      subst hr
+      refine ⟨v, hv, ?_⟩
+      simp only [fits32, decide_eq_true_eq] at hf
+      subst hw
+      have h1 : (BitVec.truncate 32 v).toNat = v.toNat % 2 ^ 32 := by simp
+      have hvn : v.toNat < 2 ^ 64 := v.isLt
+      rw [BitVec.toInt_eq_toNat_cond] at hf ⊢
+      rw [BitVec.toInt_eq_toNat_cond, h1]
+      split at hf <;> split <;> omega
+    · simp at h
+  all_goals simp at h
 
-theorem eval32_truncates (ts : List Tok) :
-    eval32 ts =
-      match eval ts with
-      | .ok (v, r) => .ok (v.truncate 32, r)
-      | .err => .err
-      | .fault => .fault
-      | .fuel => .fuel := rfl
+/-- a value that fits neither as signed nor as unsigned 32-bit number is rejected -/
+theorem eval32_rejects_unfit (ts : List Tok) (v : BitVec 64) (r : List Tok)
+    (h : eval ts = .ok (v, r)) (hu : v.toInt < -2147483648 ∨ 4294967295 < v.toInt) :
+    eval32 ts = .err := by
+  unfold eval32
+  rw [h]
+  have : fits32 v = false := by
+    simp only [fits32, decide_eq_false_iff_not]
+    omega
+  simp [this]
 
-example : eval32 [.num 0x1_0000_0005, .eol] = .ok (5, [.eol]) := by eval_model
+example : eval32 [.num 0x1_0000_0005, .eol] = .err := by eval_model
+example : eval32 [.num 0xffff_ffff, .eol] = .ok (0xffff_ffff, [.eol]) := by eval_model
 
 end NakenVerif.Expr
 
